@@ -8,7 +8,9 @@
 #
 # Not a MANIFEST command. /repo is restored after every patch (also on interrupt).
 set -u
-VERIF="$(cd "$(dirname "${BASH_SOURCE[0]}")/.." && pwd)"
+VERIF="${SENS_VERIF:-$(cd "$(dirname "${BASH_SOURCE[0]}")/.." && pwd)}"
+# developer lane: SENS_REPO=<scratch worktree> SENS_VERIF=<copy of check + sim whose Cargo.toml points at that worktree>
+REPO="${SENS_REPO:-/repo}"
 WITH_TESTS=0
 OUT="$(mktemp -d)"
 ROOT="$OUT/root"; mkdir -p "$ROOT"; cp "$VERIF/known_findings.json" "$ROOT/"
@@ -19,9 +21,9 @@ while [ $# -gt 0 ]; do
     *) args+=("$1") ;;
   esac; shift
 done
-restore() { git -C /repo checkout -- . 2>/dev/null; git -C /repo clean -fdq -- src tests 2>/dev/null; }
+restore() { git -C "$REPO" checkout -- . 2>/dev/null; git -C "$REPO" clean -fdq -- src tests 2>/dev/null; }
 trap 'restore; rm -rf "$OUT"' EXIT
-if [ -n "$(git -C /repo status --porcelain --untracked-files=no)" ]; then echo "sensitivity: /repo has uncommitted changes; refusing" >&2; exit 2; fi
+if [ -n "$(git -C "$REPO" status --porcelain --untracked-files=no)" ]; then echo "sensitivity: $REPO has uncommitted changes; refusing" >&2; exit 2; fi
 (cd "$VERIF/sim" && cargo build --release --offline >/dev/null 2>&1) || { echo "build failed" >&2; exit 2; }
 fails=0
 for item in "${args[@]}"; do
@@ -29,10 +31,10 @@ for item in "${args[@]}"; do
   if [ -d "$item" ]; then patch="$item/patch.diff"; name="$(basename "$item")"; else patch="$item"; name="$(basename "$item" .patch)"; fi
   prop="$(echo "$name" | grep -oiE 'c1[123]' | head -1 | tr a-z A-Z)"
   [ -f "$item/meta.json" ] && prop="$(jq -r .property "$item/meta.json")"
-  if ! git -C /repo apply "$patch" 2>/dev/null; then echo "$name: PATCH DOES NOT APPLY"; fails=$((fails+1)); continue; fi
+  if ! git -C "$REPO" apply "$patch" 2>/dev/null; then echo "$name: PATCH DOES NOT APPLY"; fails=$((fails+1)); continue; fi
   tests="-"
   if [ $WITH_TESTS = 1 ]; then
-    if (cd /repo && cargo test --offline --lib io:: >"$OUT/test.log" 2>&1); then tests="unit-tests-pass"; else tests="UNIT-TESTS-FAIL"; fi
+    if (cd "$REPO" && cargo test --offline --lib io:: >"$OUT/test.log" 2>&1); then tests="unit-tests-pass"; else tests="UNIT-TESTS-FAIL"; fi
   fi
   rm -rf "$ROOT/replays"
   if ! (cd "$VERIF/sim" && cargo build --release --offline >"$OUT/build.log" 2>&1); then
